@@ -608,4 +608,117 @@ theorem pbs2_eq_model (h : c ^ 2 + s ^ 2 = 1) :
     ring_nf
     try (simp only [hs]; ring)))
 end model2
+/-! ## 8. Round 4: the reported degrees and angle of polarisation, on the executable model
+
+`S4.dopSq`, `S4.dolpSq`, `S4.qn`, `S4.un`, `S4.vn` of `Model/Jones.lean` are run by driver op `degrees` on the Stokes vector
+of the model (`jonesStokes` / `vecStokes` / `scalarStokes`) and compared by the harness with the code's
+`degree_of_polarization²`, `degree_of_linear_polarization²`, `degree_of_circular_polarization`,
+`ellipticity·(1 + dolp)` and `(cos, sin)(2·angle_of_linear_polarization)·dolp`; `model_degrees_sqrt`,
+`model_ellipticity` and `model_aolp` are the bridges from the code's square-root / atan2 formulas to these. -/
+section degrees
+
+/-- `dop² = dolp² + docp²`. -/
+theorem model_dopSq_split (s : S4 ℝ) : s.dopSq = s.dolpSq + s.vn ^ 2 := by
+  unfold S4.dopSq S4.dolpSq S4.vn
+  rw [add_div, div_pow]; ring
+
+/-- `dolp² = (Q/I)² + (U/I)²`. -/
+theorem model_dolpSq_split (s : S4 ℝ) : s.dolpSq = s.qn ^ 2 + s.un ^ 2 := by
+  unfold S4.dolpSq S4.qn S4.un
+  rw [add_div, div_pow, div_pow]; ring
+
+/-- Bridge to the specification function `dop` and to the code's square-root formulas (`0 < I`). -/
+theorem model_degrees_sqrt (s : S4 ℝ) (hI : 0 < s.i) :
+    Real.sqrt s.dopSq = dop s ∧ Real.sqrt s.dolpSq = Real.sqrt (s.q ^ 2 + s.u ^ 2) / s.i := by
+  have h2 : s.i * s.i = s.i ^ 2 := by ring
+  constructor
+  · unfold S4.dopSq dop
+    rw [h2, Real.sqrt_div' _ (sq_nonneg _), Real.sqrt_sq hI.le]; congr 2; ring
+  · unfold S4.dolpSq
+    rw [h2, Real.sqrt_div' _ (sq_nonneg _), Real.sqrt_sq hI.le]; congr 2; ring
+
+/-- `ellipticity = V/(I+√(Q²+U²))` in terms of the model outputs: `ε · (1 + dolp) = V/I`. -/
+theorem model_ellipticity (s : S4 ℝ) (hI : 0 < s.i) :
+    s.v / (s.i + Real.sqrt (s.q ^ 2 + s.u ^ 2)) * (1 + Real.sqrt s.dolpSq) = s.vn := by
+  rw [(model_degrees_sqrt s hI).2]
+  unfold S4.vn
+  have hr := Real.sqrt_nonneg (s.q ^ 2 + s.u ^ 2)
+  have : s.i + Real.sqrt (s.q ^ 2 + s.u ^ 2) ≠ 0 := by positivity
+  field_simp
+
+/-- `angle_of_linear_polarization = ½ atan2(U, Q)`: any angle `α` with `(cos 2α, sin 2α)·√(Q²+U²) = (Q, U)` satisfies
+`cos 2α · dolp = Q/I`, `sin 2α · dolp = U/I` (what the harness compares). -/
+theorem model_aolp (s : S4 ℝ) (hI : 0 < s.i) (c2 s2 : ℝ) (hc : c2 * Real.sqrt (s.q ^ 2 + s.u ^ 2) = s.q)
+    (hs : s2 * Real.sqrt (s.q ^ 2 + s.u ^ 2) = s.u) :
+    c2 * Real.sqrt s.dolpSq = s.qn ∧ s2 * Real.sqrt s.dolpSq = s.un := by
+  rw [(model_degrees_sqrt s hI).2]
+  unfold S4.qn S4.un
+  constructor
+  · rw [← mul_div_assoc, hc]
+  · rw [← mul_div_assoc, hs]
+
+/-- Minkowski identity for the model: `I² − Q² − U² − V² = |det J|²·(a² − b² − c² − d²)`. -/
+theorem model_minkowski (e : J2 ℝ) (s : S4 ℝ) :
+    (jonesStokes e s).i ^ 2 - (jonesStokes e s).q ^ 2 - (jonesStokes e s).u ^ 2 - (jonesStokes e s).v ^ 2
+      = e.det.normSq * (s.i ^ 2 - s.q ^ 2 - s.u ^ 2 - s.v ^ 2) := by
+  obtain ⟨⟨xr, xi⟩, ⟨yr, yi⟩, ⟨zr, zi⟩, ⟨wr, wi⟩⟩ := e
+  obtain ⟨a, b, c, d⟩ := s
+  have := stokes_minkowski xr xi yr yi zr zi wr wi a b c d
+  rw [stokesI_eq, stokesQ_eq, stokesU_eq, stokesV_eq] at this
+  exact this
+
+/-- Partially polarised light: the reported degree of polarisation is at most one for a physical input Stokes vector. -/
+theorem model_dopSq_tensor_le_one (e : J2 ℝ) (s : S4 ℝ) (hphys : s.q ^ 2 + s.u ^ 2 + s.v ^ 2 ≤ s.i ^ 2)
+    (hI : 0 < (jonesStokes e s).i) : (jonesStokes e s).dopSq ≤ 1 := by
+  have hm := model_minkowski e s
+  have hdet : 0 ≤ e.det.normSq := by
+    unfold Cx.normSq; nlinarith [mul_self_nonneg e.det.re, mul_self_nonneg e.det.im]
+  have h0 : 0 ≤ e.det.normSq * (s.i ^ 2 - s.q ^ 2 - s.u ^ 2 - s.v ^ 2) := mul_nonneg hdet (by linarith)
+  unfold S4.dopSq
+  rw [div_le_one (by positivity)]
+  nlinarith
+
+/-- Jones-vector wavefronts are fully polarised. -/
+theorem model_dopSq_vector_eq_one (e : V2 ℝ) (hI : 0 < (vecStokes e).i) : (vecStokes e).dopSq = 1 := by
+  obtain ⟨⟨pr, pi⟩, ⟨qr, qi⟩⟩ := e
+  unfold S4.dopSq
+  rw [div_eq_one_iff_eq (by positivity)]
+  jones_expand; ring
+
+/-- Scalar wavefronts are reported unpolarised. -/
+theorem model_dopSq_scalar_eq_zero (e : Cx ℝ) : (scalarStokes e).dopSq = 0 ∧ (scalarStokes e).dolpSq = 0 ∧ (scalarStokes e).vn = 0 := by
+  simp [S4.dopSq, S4.dolpSq, S4.vn, scalarStokes]
+
+/-- Light linearly polarised at angle ψ (`A·(cos ψ, sin ψ)`, `A ≠ 0` complex): `(Q/I, U/I, V/I) = (cos 2ψ, sin 2ψ, 0)`, `dolp = 1`. -/
+theorem model_aolp_linear (A : Cx ℝ) (cs sn : ℝ) (h : cs ^ 2 + sn ^ 2 = 1) (hA : 0 < A.normSq) :
+    (vecStokes ⟨Cx.smul cs A, Cx.smul sn A⟩).qn = cs ^ 2 - sn ^ 2 ∧
+    (vecStokes ⟨Cx.smul cs A, Cx.smul sn A⟩).un = 2 * cs * sn ∧
+    (vecStokes ⟨Cx.smul cs A, Cx.smul sn A⟩).vn = 0 ∧
+    (vecStokes ⟨Cx.smul cs A, Cx.smul sn A⟩).dolpSq = 1 := by
+  obtain ⟨ar, ai⟩ := A
+  simp only [Cx.normSq] at hA
+  have hi : (vecStokes ⟨Cx.smul cs ⟨ar, ai⟩, Cx.smul sn ⟨ar, ai⟩⟩).i = ar * ar + ai * ai := by
+    jones_expand; linear_combination (ar * ar + ai * ai) * h
+  have hq : (vecStokes ⟨Cx.smul cs ⟨ar, ai⟩, Cx.smul sn ⟨ar, ai⟩⟩).q = (ar * ar + ai * ai) * (cs ^ 2 - sn ^ 2) := by
+    jones_expand; ring
+  have hu : (vecStokes ⟨Cx.smul cs ⟨ar, ai⟩, Cx.smul sn ⟨ar, ai⟩⟩).u = (ar * ar + ai * ai) * (2 * cs * sn) := by
+    jones_expand; ring
+  have hv : (vecStokes ⟨Cx.smul cs ⟨ar, ai⟩, Cx.smul sn ⟨ar, ai⟩⟩).v = 0 := by
+    jones_expand; ring
+  have hne : ar * ar + ai * ai ≠ 0 := hA.ne'
+  refine ⟨?_, ?_, ?_, ?_⟩
+  · unfold S4.qn; rw [hi, hq]; exact mul_div_cancel_left₀ _ hne
+  · unfold S4.un; rw [hi, hu]; exact mul_div_cancel_left₀ _ hne
+  · unfold S4.vn; rw [hv]; simp
+  · unfold S4.dolpSq; rw [hi, hq, hu, div_eq_one_iff_eq (by positivity)]
+    have : (cs ^ 2 - sn ^ 2) ^ 2 + (2 * cs * sn) ^ 2 = 1 := by
+      have : (cs ^ 2 - sn ^ 2) ^ 2 + (2 * cs * sn) ^ 2 = (cs ^ 2 + sn ^ 2) ^ 2 := by ring
+      rw [this, h]; ring
+    linear_combination (ar * ar + ai * ai) ^ 2 * this
+
+example : (3 / 5 : ℝ) ^ 2 + (4 / 5) ^ 2 = 1 ∧ 0 < (⟨1, 2⟩ : Cx ℝ).normSq := by
+  constructor <;> norm_num [Cx.normSq]
+
+end degrees
+
 end HcipyVerif.C08
